@@ -82,7 +82,7 @@ def run(ctx):
                 "serialize/resume ops vs M-Engine, and the snapshot/from_dict witness; distinct key = scenario signature / "
                 "history index")
     ctx.prove()
-    out, total = run_inprocess(ctx, "C14", ctx.n(60, 900), THEOREMS,
+    out, total = run_inprocess(ctx, "C14", ctx.n(66, 3000), THEOREMS,
                                need=(("retries_scheduled", 3), ("retries_executed", 3),
                                      ("waiter_timeouts_scheduled", 5), ("waiter_timeouts_fired", 1),
                                      ("release_with_waiter_timeout", 1)))
